@@ -8,12 +8,12 @@ Definition wr (t : store) : store := filter (fun kv => negb (dnw (fst kv))) t.
 
 Lemma wr_entry_ok : forall t, wf_store t = true -> Forall entry_ok (wr t).
 Proof.
-  intros t H. destruct (wf_store_spec t H) as [_ Hall]. apply Forall_forall. intros [k v] HI.
+  intros t H. destruct (wf_store_spec0 t H) as [_ Hall]. apply Forall_forall. intros [k v] HI.
   apply filter_In in HI. destruct HI as [HI _]. exact (Hall k v HI).
 Qed.
 
 Lemma wr_NoDup : forall t, wf_store t = true -> NoDup (map fst (wr t)).
-Proof. intros t H. destruct (wf_store_spec t H) as [ND _]. apply NoDup_keys_filter. exact ND. Qed.
+Proof. intros t H. destruct (wf_store_spec0 t H) as [ND _]. apply NoDup_keys_filter. exact ND. Qed.
 
 Lemma letters_safe : forall s, Forall (fun x => In x dec_table) s -> safe s = true.
 Proof.
@@ -41,22 +41,34 @@ Proof.
   - intro P. exists (fqSafe s). split; [reflexivity|]. rewrite fqSafe_fixed by (apply letters_safe; apply (HP k s Hs P)).
     apply (HP k s Hs P).
   - intros _. rewrite Forall_forall in HF. destruct (HF (k, s) Hs) as [Hk _]. cbn [fst] in Hk.
-    destruct (tagdef k) as [pd|] eqn:Ek; [|congruence]. apply (tagdef_key_safe k pd Ek).
+    destruct (tagdef k) as [pd|] eqn:Ek; [|congruence]. apply (tagdef_key_safe0 k pd Ek).
 Qed.
 
-Lemma header_not_UMI : forall w, w <> [] -> Forall entry_ok w -> starts_with s_UMI (header_of w) = false.
+Lemma header_not_UMI : forall w, w <> [] -> Forall entry_ok w -> starts_with digest_old_prefix (header_of w) = false.
 Proof.
   intros w Hne HF. destruct w as [|[k v] w]; [contradiction|]. inversion HF as [|? ? [Hk _] _]; subst. cbn [fst] in Hk.
-  destruct (tagdef k) as [pd|] eqn:Ek; [|congruence]. destruct (tagdef_key_safe k pd Ek) as [Hl _].
+  destruct (tagdef k) as [pd|] eqn:Ek; [|congruence]. destruct (tagdef_key_safe0 k pd Ek) as [Hl _].
   destruct k as [|a [|b [|c k]]]; try (vm_compute in Hl; discriminate).
   2:{ unfold len in Hl. cbn [length] in Hl. lia. }
   match goal with |- context [header_of ?X] =>
     assert (E : exists rest, header_of X = a :: b :: enc_kv_sep :: rest) end.
-  { unfold header_of. cbn [map]. destruct (map item w) as [|q r].
-    - cbn [join]. unfold item. cbn [fst snd app]. eexists. reflexivity.
-    - rewrite join_cons2. unfold item at 1. cbn [fst snd app]. eexists. reflexivity. }
-  destruct E as [rest E]. rewrite E. cbn [starts_with s_UMI]. assert (X : (73 =? enc_kv_sep) = false) by reflexivity.
+  { unfold header_of, header_of_g. cbn [map]. destruct (map (item_g C0) w) as [|q r].
+    - cbn [join]. unfold item_g. cbn [fst snd app]. eexists. reflexivity.
+    - rewrite join_cons2. unfold item_g at 1. cbn [fst snd app]. eexists. reflexivity. }
+  destruct E as [rest E]. rewrite E. change digest_old_prefix with [85; 77; 73]. cbn [starts_with].
+  assert (X : (73 =? enc_kv_sep) = false) by reflexivity.
   rewrite X. destruct (85 =? a); destruct (77 =? b); reflexivity.
+Qed.
+
+(* the read group with the regenerated recipe written out: Fc.La.SM, NONE for a missing tag *)
+Lemma read_group_unfold : forall out,
+  read_group out = (match get k_Fc out with Some v => fmt v | None => s_NONE end) ++ 46 ::
+                   (match get k_La out with Some v => fmt v | None => s_NONE end) ++ 46 ::
+                   (match get k_SM out with Some v => fmt v | None => s_NONE end).
+Proof.
+  intro out. unfold read_group, eval_rg.
+  change rg_recipe with [(0, (k_Fc, s_NONE)); (1, ([46], [])); (0, (k_La, s_NONE)); (1, ([46], [])); (0, (k_SM, s_NONE))].
+  cbn [map concat fst snd Z.eqb Pos.eqb app]. rewrite app_nil_r. reflexivity.
 Qed.
 
 Lemma fqSafe_us : forall a b, fqSafe (fqSafe a ++ 95 :: fqSafe b) = fqSafe a ++ 95 :: fqSafe b.
@@ -76,14 +88,14 @@ Proof.
 Qed.
 
 Lemma header_of_cons2 : forall kv q r, header_of (kv :: q :: r) = item kv ++ enc_item_sep :: header_of (q :: r).
-Proof. intros. unfold header_of. cbn [map]. apply join_cons2. Qed.
+Proof. intros. unfold header_of, header_of_g. cbn [map]. apply join_cons2. Qed.
 
 Lemma header_len_ge : forall w, vsum w <= len (header_of w).
 Proof.
   induction w as [|[k v] w IH]; [cbn; lia|]. destruct w as [|q r].
-  - unfold header_of. cbn [map join vsum fold_right]. unfold item. cbn [fst snd]. rewrite len_app, len_cons.
+  - unfold header_of, header_of_g. cbn [map join vsum fold_right]. unfold item_g. cbn [fst snd]. rewrite len_app, len_cons.
     pose proof (len_nonneg _ k). lia.
-  - rewrite header_of_cons2, len_app, len_cons. unfold item. cbn [fst snd]. rewrite len_app, len_cons.
+  - rewrite header_of_cons2, len_app, len_cons. unfold item, item_g. cbn [fst snd]. rewrite len_app, len_cons.
     change (vsum ((k, v) :: q :: r)) with (len v + 1 + vsum (q :: r)). pose proof (len_nonneg _ k). lia.
 Qed.
 
@@ -127,11 +139,6 @@ Proof.
   rewrite EQ. assert (ksum ks (ddel k w) <= vsum (ddel k w)); [|lia].
   apply IH; [exact NDk'|apply NoDup_keys_filter; exact ND|].
   intros k2 Hk2. rewrite get_ddel_other by (intro; subst; contradiction). apply H. right. exact Hk2.
-Qed.
-
-Lemma len_fqSafe : forall s, len (fqSafe s) <= len s.
-Proof.
-  induction s as [|c s IH]; [cbn; lia|]. unfold fqSafe in *. cbn [filter]. destruct (fq_keep c); rewrite ?len_cons; lia.
 Qed.
 
 Lemma name_keys_NoDup : NoDup [k_Is; k_RN; k_Fc; k_La; k_Ti; k_CX; k_CY].
@@ -213,7 +220,7 @@ Proof.
   split.
   { intros raw Haa. rewrite get_dset_other by discriminate. apply Hah. rewrite G, Haa. reflexivity. }
   split.
-  { rewrite get_dset_same. unfold read_group. rewrite HFc', HLa', HSM. cbn [fmt]. reflexivity. }
+  { rewrite get_dset_same. rewrite read_group_unfold. rewrite HFc', HLa', HSM. cbn [fmt]. reflexivity. }
   split; [|split].
   - intros k v HI Hk Hrg Hph. rewrite get_dset_other by exact Hrg. rewrite Hrest by exact Hk. rewrite G.
     rewrite (get_In k v w ND HI). cbn [option_map]. unfold wv. rewrite Hph. reflexivity.
